@@ -461,11 +461,10 @@ func (ctx *Ctx) cmpLC(lc lc, path []byte, cond op, right []byte) bool {
 		v := &ctx.vars[i]
 		if v.key == ctx.bufS[0] {
 			switch {
-			case v.val == nil && len(v.buf) > 0 && lc == lcLen:
-				// Special case: var is a byte slice.
+			case v.val == nil && len(v.buf) > 0 && (lc == lcLen || lc == lcCap):
+				// Special case: var is a byte slice. The buffer is the context's own copy: its spare room
+				// depends on what the slot held before and is not a property of the data.
 				ctx.bufI = len(v.buf)
-			case v.val == nil && len(v.buf) > 0 && lc == lcCap:
-				ctx.bufI = cap(v.buf)
 			case lc == lcLen:
 				ctx.Err = v.ins.Length(v.val, &ctx.bufI, ctx.bufS[1:]...)
 			case lc == lcCap:
